@@ -655,6 +655,14 @@ func init() {
 				if c, ok := in.(*ssa.Call); ok && funcID(calleeObj(&c.Call)) == "context.WithTimeout" && strings.HasSuffix(pathOf(c.Call.Args[1]), ".HandleTimeout") {
 					wt = c
 				}
+				// the same thing spelled with an absolute time: WithDeadline(ctx, time.Now().Add(HandleTimeout))
+				if c, ok := in.(*ssa.Call); ok && funcID(calleeObj(&c.Call)) == "context.WithDeadline" {
+					if add, ok := c.Call.Args[1].(*ssa.Call); ok && funcID(calleeObj(&add.Call)) == "time.(Time).Add" && len(add.Call.Args) == 2 {
+						if now, ok := add.Call.Args[0].(*ssa.Call); ok && funcID(calleeObj(&now.Call)) == "time.Now" && strings.HasSuffix(pathOf(add.Call.Args[1]), ".HandleTimeout") {
+							wt = c
+						}
+					}
+				}
 			})
 			waited := false
 			eachInstr(fn, func(in ssa.Instruction) {
